@@ -28,7 +28,7 @@ LEVEL_TEXT = ("The four mechanisms the property names are each decided on all CF
 
 
 def configs(tier):
-    return ["A"] if tier == "quick" else ["A", "F", "N", "FN"]
+    return ["A", "N"] if tier == "quick" else ["A", "F", "N", "FN"]   # N: three independent seeds (C01-g2, C10-g2, C17-g2) hid a defect in a cfg(not(parallel)) twin
 
 
 def run(ctx):
